@@ -55,7 +55,7 @@ L1_POPS = {
 L2_PROPS = {"C01", "C02", "C03", "C04", "C05", "C06", "C07", "C08", "C09", "C10", "C11", "C12", "C15", "C18", "C19", "C20"}
 ALL_PROPS = sorted(set(L1_POPS) | L2_PROPS)
 
-SECS = {"quick": 22, "thorough": 420}
+SECS = {"quick": 30, "thorough": 420}
 CORPUS = {"quick": (6, 20, 8), "thorough": (16, 32, 12)}  # packages, programs per package, max tasks
 
 COMPONENTS = {
